@@ -55,12 +55,19 @@ def run_one(sid, extra_checks, with_tests):
     try:
         sh("rsync -a --exclude .git --exclude mutants %s/ %s/" % (REPO, scratch))
         r = sh("cd %s && patch -p1 --no-backup-if-mismatch < %s" % (scratch, os.path.join(d, "patch.diff")))
+        if r.returncode != 0 and os.path.exists(os.path.join(d, "patch_repaired_tree.diff")):
+            # the change was written against the pre-fix tree and touches a line a fix: commit rewrote:
+            # the same change ported to the repaired tree
+            sh("rsync -a --delete --exclude .git --exclude mutants %s/ %s/" % (REPO, scratch))
+            r = sh("cd %s && patch -p1 --no-backup-if-mismatch < %s" % (scratch, os.path.join(d, "patch_repaired_tree.diff")))
+            meta["applied"] = "patch_repaired_tree.diff"
         if r.returncode != 0:
             print(sid, "PATCH FAILED", r.stdout[-300:])
             return
         demo = os.path.join(d, "demo.py")
-        env_m = dict(os.environ, PYTHONPATH=scratch)
-        env_c = dict(os.environ, PYTHONPATH=REPO)
+        thr = {"OMP_NUM_THREADS": "1", "OPENBLAS_NUM_THREADS": "1", "MKL_NUM_THREADS": "1"}
+        env_m = dict(os.environ, PYTHONPATH=scratch, **thr)
+        env_c = dict(os.environ, PYTHONPATH=REPO, **thr)
         rm = subprocess.run([PY, demo], cwd=scratch, env=env_m, stdout=subprocess.PIPE, stderr=subprocess.STDOUT, text=True)
         rc = subprocess.run([PY, demo], cwd=REPO, env=env_c, stdout=subprocess.PIPE, stderr=subprocess.STDOUT, text=True)
         res = {"demo_with_change_exit": rm.returncode, "demo_without_change_exit": rc.returncode}
